@@ -168,3 +168,12 @@ func (sv segVers) verOf(off int64) int {
 }
 
 var _ = binary.BigEndian
+
+// headVersion is the format version of the newest segment's log file.
+func headVersion(dir string) int {
+	sv := segVersions(dir)
+	if len(sv.vers) == 0 {
+		return 0
+	}
+	return sv.vers[len(sv.vers)-1]
+}
